@@ -843,6 +843,7 @@ func (e *Env) call(v *ast.CallExpr, want *Sort) T {
 		}
 		n := *e
 		n.st = e.old
+		n.anchorText = "" // s[k] inside old() is the element in the old state, not the quantifier's anchor term
 		if g.calleeDepth == 0 && g.paramEnv != nil {
 			// in the function's own clauses old(p) of a parameter the body reassigns is the
 			// value it was called with, not the loop variable it has become
@@ -868,6 +869,7 @@ func (e *Env) call(v *ast.CallExpr, want *Sort) T {
 		n := *e
 		n.st = g.headSt[g.curHead]
 		n.vars = g.headVars[g.curHead]
+		n.anchorText = "" // s[k] inside head() is the element at the loop head
 		t := n.compile(v.Args[0], want)
 		e.errs = n.errs
 		return t
